@@ -11,6 +11,8 @@ use risinglight_proto::rowset::BlockIndex;
 use risinglight_proto::rowset::block_checksum::ChecksumType;
 
 use super::*;
+/// Types an external harness needs to hold a scan open across other operations.
+pub use super::{SecondaryTableTxnIterator, SecondaryTransaction};
 use crate::array::{ArrayImpl, StringArray};
 use crate::catalog::{ColumnCatalog, ColumnDesc};
 use crate::storage::StorageResult;
